@@ -94,8 +94,11 @@ def run(ctx, chk):
                             "condition": f_show(cond)})
         if K == "SubnetScan":
             check_result_maps(chk, cf)
-    chk.floor("C03.L2", n_reach, 1, "stores to reachable outside reset")
-    chk.floor("C03.L3", n_disc, 1, "stores to discovered outside reset")
+    chk.ob("C03.L2.exists", "a successful Exploit extends reachability (store to `reachable` "
+           "found on its success exits)", n_reach >= 1, f"{n_reach} store(s)",
+           "nasim/envs/network.py")
+    chk.ob("C03.L3.exists", "a successful SubnetScan discovers hosts (store to `discovered` found "
+           "on its success exit)", n_disc >= 1, f"{n_disc} store(s)", "nasim/envs/network.py")
     if reach_cond is not None and disc_cond is not None:
         a1 = {a for a in f_atoms(reach_cond) if "topology" in a}
         a2 = {a for a in f_atoms(disc_cond) if "topology" in a}
